@@ -65,6 +65,18 @@ type gcCase struct {
 	IPDirs     []dirSpec               `json:"ipdirs"`
 	GCDirs     []dirSpec               `json:"gcdirs"`
 	CBFail     []string                `json:"cbfail,omitempty"`
+	// Moves of the environment (host-local: CNI ADD / DEL) landing DURING inspect requests of the first round
+	Moves []move `json:"moves,omitempty"`
+}
+
+// move: during the At-th inspect request of round 1 (1-based, counted at the fake runtime), write (Op "w") or
+// delete (Op "x") the reservation file Name of allocated-IP directory Dir.
+type move struct {
+	At      int    `json:"at"`
+	Op      string `json:"op"`
+	Dir     int    `json:"dir"`
+	Name    string `json:"name"`
+	Content string `json:"content,omitempty"`
 }
 
 type env struct {
@@ -416,14 +428,99 @@ func (v *env) runCase(line string) {
 		_ = id
 	}
 
+	// the environment moves while the collector waits for the runtime: applied inside the fake's request handler
+	type applied struct {
+		m        move
+		observed string // the container the collector was asking about
+		prev     string // content of the target before the move ("" = absent)
+		had      bool
+	}
+	var done []applied
+	hasMoves := len(c.Moves) > 0 && c.Mode != "outage"
+	if hasMoves {
+		hook := func(k int, id string) {
+			for _, m := range c.Moves {
+				if m.At != k || m.Dir < 0 || m.Dir >= len(ipDirs) {
+					continue
+				}
+				p := filepath.Join(ipDirs[m.Dir], m.Name)
+				b, err := os.ReadFile(p)
+				a := applied{m: m, observed: id, prev: string(b), had: err == nil}
+				if m.Op == "w" {
+					os.WriteFile(p, []byte(m.Content), 0o600)
+				} else {
+					os.Remove(p)
+				}
+				done = append(done, a)
+			}
+		}
+		if c.cri() {
+			v.fc.SetHook(hook)
+		} else {
+			v.fd.SetHook(hook)
+		}
+		v.r.Hit("stream:environment-moves:" + c.Mode)
+	}
 	out := hx.Guard(120*time.Second, func() {
 		g.VerifCleanupIPOnce()
 		g.VerifCleanupGCDirsOnce()
 	})
+	if hasMoves {
+		v.fd.SetHook(nil)
+		if v.fc != nil {
+			v.fc.SetHook(nil)
+		}
+	}
 	if out != "ok" {
 		v.violation("gc-round-"+strings.SplitN(out, ":", 2)[0], "one GC round: "+out, line)
 		return
 	}
+	// targets of moves are judged by their content AFTER the move, not by the initial specification
+	moved := map[string]bool{}
+	for _, m := range c.Moves {
+		moved[fmt.Sprint(m.Dir, "/", m.Name)] = true
+	}
+	admissible := hasMoves && len(done) == len(c.Moves)
+	for _, a := range done {
+		// a move that hits the file whose owner is being inspected falls into the read-inspect-remove window every
+		// such collector has: no claim
+		if a.had && cidOf(a.prev) == a.observed {
+			admissible = false
+			v.r.Hit("moves:in-own-window-no-claim")
+		}
+	}
+	if hasMoves && len(done) != len(c.Moves) {
+		v.r.Hit("moves:not-reached-no-claim")
+	}
+	checkMoved := func(round int) {
+		if !admissible {
+			return
+		}
+		last := map[string]move{}
+		for _, a := range done {
+			last[fmt.Sprint(a.m.Dir, "/", a.m.Name)] = a.m
+		}
+		for _, m := range last {
+			if m.Op != "w" || net.ParseIP(m.Name) == nil || len(m.Content) == 0 {
+				continue
+			}
+			b := c.behaviour(cidOf(m.Content))
+			cls := b.Class(c.cri())
+			_, err := os.Lstat(filepath.Join(ipDirs[m.Dir], m.Name))
+			exists := err == nil
+			switch {
+			case cls == "alive" && !exists:
+				v.violation("gc-removed:reassigned-to-running", fmt.Sprintf("round %d: reservation %q was handed to the running container %q (%s) during inspect request %d and was removed afterwards: the collector judged an owner it had read before the re-assignment",
+					round, m.Name, cidOf(m.Content), b, m.At), line)
+			case cls == "unknown" && !exists:
+				v.violation("gc-removed:reassigned-to-unknown", fmt.Sprintf("round %d: reservation %q was handed to container %q (%s) during inspect request %d and was removed afterwards", round, m.Name, cidOf(m.Content), b, m.At), line)
+			case cls == "dead" && exists && round == 2:
+				v.violation("gc-dead-not-removed:after-reassignment", fmt.Sprintf("reservation %q, handed to the dead container %q during round 1, is still there after round 2", m.Name, cidOf(m.Content)), line)
+			}
+			v.r.Hit("moves:checked:" + cls)
+		}
+	}
+	checkMoved(1)
 	round1CB := append([]string(nil), callbacks...)
 	removedAny, keptFile := false, false
 
@@ -437,8 +534,13 @@ func (v *env) runCase(line string) {
 		for _, n := range top {
 			left[n] = true
 		}
-		v.expect("ipsweep", line, "ipsweep "+c.specTokens()+" "+entryTokens(d.E), strings.TrimRight("ok "+namesLine(top), " "))
+		if !hasMoves {
+			v.expect("ipsweep", line, "ipsweep "+c.specTokens()+" "+entryTokens(d.E), strings.TrimRight("ok "+namesLine(top), " "))
+		}
 		for _, e := range d.E {
+			if moved[fmt.Sprint(i, "/", e.N)] {
+				continue
+			}
 			removed := !left[e.N]
 			if e.K == "d" {
 				v.r.Hit("ipdir-entry:directory")
@@ -479,6 +581,36 @@ func (v *env) runCase(line string) {
 					c.behindNote(true, i, e.N)), line)
 			}
 		}
+	}
+	if hasMoves && admissible {
+		// the whole pass over all allocated-IP directories, interleaved with the moves, against the model
+		toks := []string{"ipsweepi", c.specTokens()}
+		var segs []string
+		for i, d := range c.IPDirs {
+			if d.Missing {
+				toks = append(toks, "NODIR")
+				segs = append(segs, "~")
+				continue
+			}
+			toks = append(toks, "DIR")
+			if et := entryTokens(d.E); et != "" {
+				toks = append(toks, et)
+			}
+			top, _ := listing(ipDirs[i])
+			segs = append(segs, namesLine(top))
+		}
+		for _, m := range c.Moves {
+			if m.Op == "w" {
+				ip6 := "0"
+				if strings.Contains(m.Name, ":") && net.ParseIP(m.Name) != nil {
+					ip6 = "1"
+				}
+				toks = append(toks, "M", fmt.Sprint(m.At), "w", fmt.Sprint(m.Dir), fk.H(m.Name), fk.H(m.Content), ip6)
+			} else {
+				toks = append(toks, "M", fmt.Sprint(m.At), "x", fmt.Sprint(m.Dir), fk.H(m.Name))
+			}
+		}
+		v.expect("ipsweep-interleaved", line, strings.Join(toks, " "), "ok "+strings.Join(segs, " | "))
 	}
 	// ---- gc_dirs
 	var wantCB []string
@@ -573,7 +705,7 @@ func (v *env) runCase(line string) {
 				continue
 			}
 			for _, e := range d.E {
-				if !c.isDeadFile(ip, e) {
+				if !c.isDeadFile(ip, e) || (ip && moved[fmt.Sprint(i, "/", e.N)]) {
 					continue
 				}
 				if _, err := os.Lstat(filepath.Join(paths[i], e.N)); err == nil {
@@ -583,7 +715,8 @@ func (v *env) runCase(line string) {
 		}
 	}
 	after := snapshot(append(append([]string(nil), ipDirs...), gcDirs...))
-	if before != after || len(callbacks) != 0 {
+	checkMoved(2)
+	if !hasMoves && (before != after || len(callbacks) != 0) {
 		v.violation("gc-second-round-not-idle", fmt.Sprintf("second round under the same runtime answers changed the directories or called back %v", callbacks), line)
 	}
 }
@@ -747,6 +880,107 @@ func genBehindErr(rng *rand.Rand, mode string) *gcCase {
 		c.GCDirs = append(c.GCDirs, gcd)
 	}
 	return c
+}
+
+// genMoveCases: one layout of reservation files (a different owner per file) and, for EVERY inspect request k of the
+// pass, a handful of environment moves landing during that request: a later / an earlier reservation handed to a
+// running container, a new reservation (sorting after, in a later directory, before everything), a released
+// reservation, a later reservation handed to a dead container.
+func genMoveCases(rng *rand.Rand, mode string) []*gcCase {
+	cri := mode == "cri"
+	all := fk.DockerBehaviours
+	if cri {
+		all = fk.CriBehaviours
+	}
+	var behs []fk.Behaviour
+	for _, b := range all {
+		if b != "reset" { // a reset connection may be retried by the http transport: request numbers would shift
+			behs = append(behs, b)
+		}
+	}
+	running := fk.Behaviour("running")
+	if cri {
+		running = "ready"
+	}
+	base := gcCase{Mode: mode, Containers: map[string]fk.Behaviour{}}
+	runID := "run" + genID(rng)[:8]
+	base.Containers[runID] = running
+	goneID := "gone" + genID(rng)[:8] // nobody knows it: not found = dead
+	type pos struct {
+		dir  int
+		name string
+		cls  string
+	}
+	var seq []pos // the inspectable files in the order of the pass
+	nd := 1 + rng.Intn(2)
+	for d := 0; d < nd; d++ {
+		ds := dirSpec{}
+		nf := 2 + rng.Intn(3)
+		for i := 1; i <= nf; i++ {
+			id := fmt.Sprintf("c%d%d%s", d, i, genID(rng)[:6])
+			b := behs[rng.Intn(len(behs))]
+			if rng.Intn(2) == 0 {
+				b = []fk.Behaviour{"notfound", "notfound", "exited", "dead"}[rng.Intn(4)]
+				if cri {
+					b = []fk.Behaviour{"notfound", "nr-podgone", "nr-term"}[rng.Intn(3)]
+				}
+			}
+			base.Containers[id] = b
+			name := fmt.Sprintf("10.%d.0.%d", d, i)
+			ds.E = append(ds.E, entry{N: name, K: "f", C: genContent(rng, id)})
+			seq = append(seq, pos{d, name, b.Class(cri)})
+		}
+		if rng.Intn(2) == 0 {
+			ds.E = append(ds.E, entry{N: fmt.Sprintf("10.%d.0.0", d), K: "f", C: ""}) // sorts first, not inspectable
+		}
+		if rng.Intn(3) == 0 {
+			ds.E = append(ds.E, entry{N: "lock", K: "f", C: "x"})
+		}
+		base.IPDirs = append(base.IPDirs, ds)
+	}
+	mk := func(ms ...move) *gcCase {
+		c := base
+		c.Moves = ms
+		return &c
+	}
+	var out []*gcCase
+	for k := 1; k <= len(seq); k++ {
+		later := seq[k:]
+		earlier := seq[:k-1]
+		cur := seq[k-1]
+		if len(later) > 0 {
+			t := later[rng.Intn(len(later))]
+			// prefer a reservation of a dead container: the one the batched refactoring gets wrong
+			for _, l := range later {
+				if l.cls == "dead" && rng.Intn(2) == 0 {
+					t = l
+				}
+			}
+			out = append(out, mk(move{At: k, Op: "w", Dir: t.dir, Name: t.name, Content: genContent(rng, runID)}))
+			t2 := later[rng.Intn(len(later))]
+			out = append(out, mk(move{At: k, Op: "x", Dir: t2.dir, Name: t2.name}))
+			t3 := later[rng.Intn(len(later))]
+			out = append(out, mk(move{At: k, Op: "w", Dir: t3.dir, Name: t3.name, Content: genContent(rng, goneID)}))
+		}
+		if len(earlier) > 0 {
+			t := earlier[rng.Intn(len(earlier))]
+			out = append(out, mk(move{At: k, Op: "w", Dir: t.dir, Name: t.name, Content: genContent(rng, runID)}))
+		}
+		newName := []string{fmt.Sprintf("10.%d.0.9", cur.dir), fmt.Sprintf("10.%d.0.9", nd-1), fmt.Sprintf("10.%d.0.00", cur.dir), "10.0.0.0"}[rng.Intn(4)]
+		newDir := cur.dir
+		if strings.HasPrefix(newName, fmt.Sprintf("10.%d.", nd-1)) {
+			newDir = nd - 1
+		}
+		if newName == "10.0.0.0" {
+			newDir = 0
+		}
+		owner := runID
+		if rng.Intn(3) == 0 {
+			owner = goneID
+		}
+		out = append(out, mk(move{At: k, Op: "w", Dir: newDir, Name: newName, Content: genContent(rng, owner)}))
+	}
+	return out
 }
 
 func snapshot(dirs []string) string {
@@ -953,6 +1187,18 @@ func run(e *hx.Env) *hx.Report {
 		v.runCase("case " + string(b))
 	}
 	v.flush()
+	// the environment moving during a round: every inspect request k of a pass x a handful of moves
+	for i, n := 0, e.N(6, 120); i < n; i++ {
+		mode := "docker"
+		if i%2 == 1 && v.criIf != nil {
+			mode = "cri"
+		}
+		for _, c := range genMoveCases(rng, mode) {
+			b, _ := json.Marshal(c)
+			v.runCase("case " + string(b))
+		}
+		v.flush()
+	}
 	for i, n := 0, e.N(400, 12000); i < n; i++ {
 		mode := "docker"
 		switch {
